@@ -100,14 +100,30 @@ class Condition(Notification):
 
 class Connective(Condition):
     """Logical connection of sub-conditions"""
-    __slots__ = ('_children',)
+    __slots__ = ('_children', '_watched')
 
     def __init__(self, *conditions: Condition):
         super().__init__()
         self._children = conditions
+        self._watched = False
 
     def __await__(self) -> Generator[AnyT, None, bool]:
         return (yield from self.__await_children__().__await__())  # noqa: B901
+
+    def __subscribe__(self, waiter: Coroutine, interrupt: CoreInterrupt):
+        # nobody triggers a connective by itself: if there are subscribers
+        # (e.g. ``until(a | b)``) we must watch the children on their behalf
+        if not self and not self._watched:
+            self._watched = True
+            __USIM_STATE__.loop.schedule(self._watch_children())
+        super().__subscribe__(waiter, interrupt)
+
+    async def _watch_children(self):
+        try:
+            await self.__await_children__()
+        finally:
+            self._watched = False
+        self.__trigger__()
 
     async def __await_children__(self) -> bool:
         await postpone()
